@@ -134,6 +134,8 @@ def gen_case(rnd, inline=False):
     c.n_calls = 0
     c.n_default = 0
     c.n_nested = 0
+    c.n_foot = 0
+    fexp = []
     for _ in range(nuses):
         if pending and rnd.random() < .6:
             s, tab = pending.pop(0)
@@ -142,6 +144,16 @@ def gen_case(rnd, inline=False):
         w, st = word('u')
         exp.append((w, 'exact', st, st))
         emit(' ')
+        # a use inside a footnote / caption: the detached text is expanded where it stands (macro table of that
+        # moment) and reported behind the main text
+        infoot = rnd.random() < .2
+        if infoot:
+            emit(rnd.choice(['\\footnote{', '\\footnote{', '\\caption{']))
+            main_exp, exp = exp, []
+            w, st = word('f')
+            exp.append((w, 'exact', st, st))
+            emit(' ')
+            c.n_foot += 1
         name = rnd.choice(names)
         known = name in cur
         n, hasopt, default, b = (cur if known else final)[name]
@@ -203,9 +215,14 @@ def gen_case(rnd, inline=False):
                         exp.append((wtxt, 'exact', off, off))
             if hasopt and args and args[0][0][1] is not None:
                 pass
+        if infoot:
+            emit('}')
+            fexp += exp
+            exp = main_exp
         emit(rnd.choice([' ', '\n', '{} ']))
     w, st = word('u')
     exp.append((w, 'exact', st, st))
+    exp += fexp
     # (definition lines may be indented: a line holding nothing but definitions leaves nothing, not even blanks)
     indent = rnd.choice(['', '', '  ', '\t', '    '])
     c.D = ''.join((indent if i else '') + s + '\n' for i, (s, _) in enumerate(defs_src))
@@ -420,7 +437,7 @@ class C09(core.Check):
             # the special macros and comments switched off: no influence on definitions, from whatever source
             opts['nosp'] = True
         cnt = {'inline' if c.inline else 'routes': 1, 'calls': c.n_calls, 'unknown_uses': c.n_unknown_uses,
-               'default_used': c.n_default, 'nested_calls': c.n_nested}
+               'default_used': c.n_default, 'nested_calls': c.n_nested, 'uses_in_detached_text': c.n_foot}
         if opts.get('nosp'):
             cnt['with_no_specials'] = 1
         nt = c.n_calls > 0
@@ -488,7 +505,7 @@ class C09(core.Check):
                     obs=dict(D=tex.short(D, 200), B=tex.short(B, 150), plain=tex.short(t2, 120)))
 
     def quotas(self, tier):
-        return {'definitions_mid_document': 300, 'subst_definer': 300, 'subst_optional_given': 300, 'subst_optional_default': 200, 'subst_cases': 3000, 'subst_inner': 500, 'subst_arg': 500, 'subst_arg_ends_with_control_word': 500, 'routes': 2000, 'with_no_specials': 300, 'inline': 500, 'ltinput_twice': 300, 'calls': 5000, 'unknown_uses': 100, 'default_used': 300,
+        return {'definitions_mid_document': 300, 'subst_definer': 300, 'subst_optional_given': 300, 'subst_optional_default': 200, 'subst_cases': 3000, 'subst_inner': 500, 'subst_arg': 500, 'subst_arg_ends_with_control_word': 500, 'routes': 2000, 'uses_in_detached_text': 500, 'with_no_specials': 300, 'inline': 500, 'ltinput_twice': 300, 'calls': 5000, 'unknown_uses': 100, 'default_used': 300,
                 'nested_calls': 500}
 
 
